@@ -3,6 +3,7 @@ package dbl
 import (
 	"context"
 	"sync"
+	"time"
 
 	"github.com/libp2p/go-libp2p/core/peer"
 	"github.com/libp2p/go-libp2p/core/protocol"
@@ -42,6 +43,9 @@ type Network struct {
 	ConnErr error
 	// OnSend, if set, is called (outside the lock) after the send was recorded
 	OnSend func(Sent)
+	// SendDelay makes every send take that long (it ends early, with the
+	// context's error, when the caller's context ends - like a real stream open)
+	SendDelay time.Duration
 }
 
 var _ network.DataTransferNetwork = (*Network)(nil)
@@ -64,9 +68,18 @@ func (n *Network) Unprotect(id peer.ID, tag string) bool {
 func (n *Network) SendMessage(ctx context.Context, to peer.ID, msg datatransfer.Message) error {
 	n.mu.Lock()
 	f := n.SendErr
+	delay := n.SendDelay
 	n.mu.Unlock()
 	var err error
-	if f != nil {
+	if delay > 0 {
+		select {
+		case <-time.After(delay):
+		case <-ctx.Done():
+		}
+	}
+	if cerr := ctx.Err(); cerr != nil {
+		err = cerr
+	} else if f != nil {
 		err = f(to, msg)
 	}
 	s := Sent{Seq: NextSeq(), To: to, Msg: msg, Err: err}
@@ -110,6 +123,13 @@ func (n *Network) ID() peer.ID { return n.self }
 
 func (n *Network) Protocol(ctx context.Context, p peer.ID) (protocol.ID, error) {
 	return datatransfer.ProtocolDataTransfer1_2, nil
+}
+
+// SetSendDelay sets the duration of every send.
+func (n *Network) SetSendDelay(d time.Duration) {
+	n.mu.Lock()
+	n.SendDelay = d
+	n.mu.Unlock()
 }
 
 // SetSendErr installs the send-result function.
